@@ -21,5 +21,7 @@ theorem verdict : (classify Generated.factsC09).Sound (Holds (cfgOf Generated.fa
 #print axioms refutes_stale
 #print axioms refutes_of_findings
 #print axioms holds_partial
+#print axioms linearizable_repaired
+#print axioms holds_repaired
 
 end Hv.C09
